@@ -1,6 +1,7 @@
 import Chihaya.Driver.Proto
 import Chihaya.Gen.Validate
 import Chihaya.Model.Config
+import Chihaya.Model.VarInterval
 open Proto Gen.Validate
 
 namespace DConfig
@@ -63,7 +64,7 @@ def entryOK (e : String) : Bool :=
   | ["ca", "ok"] | ["ta", "ok"] => true
   | ["vi", pn, pd, d] =>
     match pn.toInt?, pd.toNat?, d.toInt? with
-    | some pn, some pd, some d => decide (0 < pn) && decide (pn ≤ (pd : Int)) && decide (0 < d)
+    | some pn, some pd, some d => VarInterval.checkConfig { pn := pn, pd := pd, maxDelta := d, modifyMin := true }
     | _, _, _ => false
   | _ => false
 
